@@ -185,6 +185,44 @@ def wstep (bs mr start : Nat) (data : Bytes) (s : GState) (e : WEv) : GState :=
 def wrun (bs mr start : Nat) (data file0 : Bytes) (evs : List WEv) : GState :=
   evs.foldl (wstep bs mr start data) (winit bs mr start data file0)
 
+/-- What the environment can do to one block of a write, in full.  Besides `WEv` (applied whole and answered
+    FX_OK / answered with an error / end of a batch):
+    * `eof r`     — the WRITE is answered with status FX_EOF (`SFTPEOFError` out of `run_task`);
+    * `short r n` — the kernel accepts only the first `n < size` bytes of the block (the write crosses the end
+                    of free space, a quota or RLIMIT_FSIZE) and whatever made it short persists. -/
+inductive WEvX where
+  | base (e : WEv)
+  | eof (r : Req)
+  | short (r : Req) (n : Nat)
+deriving Repr
+
+/-- One step of the writer as the code has it.
+    `eofErr`   : `iter()` treats `SFTPEOFError` as the end of the file only for the reader
+                 (`_stop_at_eof`); for the writer it is a failed block.  `false` = the code before that
+                 repair: the shared `except SFTPEOFError: self._bytes_left = 0` swallows it.
+    `writeAll` : `SFTPServer.write` keeps writing until the block is complete, so that the cause of a short
+                 `write()` is raised and answered as an error.  `false` = the code before that repair: one
+                 `file_obj.write(data)`, count dropped by `_process_write`, FX_OK; the client's `run_task`
+                 reports `size, size`. -/
+def wstepX (eofErr writeAll : Bool) (bs mr start : Nat) (data : Bytes) (s : GState) : WEvX → GState
+  | .base e => wstep bs mr start data s e
+  | .eof r => gstep false bs mr 0 s (.complete r (if eofErr then .err else .eof))
+  | .short r n =>
+    if writeAll then wstep bs mr start data s (.err r)
+    else if s.io.raised = true ∨ r ∉ s.io.pending then s
+    else { io := { finish s.io r r.size with mid := true },
+           buf := pwrite s.buf r.off ((wslice data start r).take n),
+           copied := s.copied + r.size }
+
+def wrunX (eofErr writeAll : Bool) (bs mr start : Nat) (data file0 : Bytes) (evs : List WEvX) : GState :=
+  evs.foldl (wstepX eofErr writeAll bs mr start data) (winit bs mr start data file0)
+
+/-- with both repairs every `WEvX` is one of the three `WEv` -/
+def wevX : WEvX → WEv
+  | .base e => e
+  | .eof r => .err r
+  | .short r _ => .err r
+
 /-! ### copier: `_SFTPFileCopier(block_size, max_requests, total_bytes, sparse, …).run()` -/
 
 structure CState where
@@ -215,6 +253,17 @@ def cstep (bs mr : Nat) (s : CState) : Ev → CState
 
 def crun (bs mr : Nat) (ranges : List (Nat × Nat)) (evs : List Ev) : CState :=
   evs.foldl (cstep bs mr) (cinit bs mr ranges)
+
+/-- The copier's source signals its end by empty data (`SFTPClientFile.read` swallows `SFTPEOFError`,
+    a local file returns `b''`), so `SFTPEOFError` can reach the copier's `iter()` only from the
+    *destination's* write.  `eofErr = true`: it is a failed block (`_stop_at_eof` is false for the copier);
+    `false`: the code before the repair takes it for the end of the file. -/
+def cev (eofErr : Bool) : Ev → Ev
+  | .complete r .eof => if eofErr then .complete r .err else .complete r .eof
+  | e => e
+
+def crunE (eofErr : Bool) (bs mr : Nat) (ranges : List (Nat × Nat)) (evs : List Ev) : CState :=
+  crun bs mr ranges (evs.map (cev eofErr))
 
 inductive COutcome where
   | running
@@ -270,6 +319,7 @@ structure FObj where
   readLen : Nat                 -- `self.read_len`
   writeLen : Nat
   maxReadLen : Nat              -- `handler.limits.max_read_len`
+  toEndReader : Bool            -- does `read()` to the end of the file always use `_SFTPFileReader`? (Gen.C12)
 deriving Repr
 
 structure FWorld where
@@ -292,9 +342,16 @@ inductive FRes where
   | exc                          -- OverflowError from UInt64/UInt32 of a negative number
 deriving Repr, DecidableEq
 
-/-- does `read` take the `_SFTPFileReader` path? (`self.read_len and size > min(read_len, max_read_len)`) -/
-def readParallel (o : FObj) (size : Int) : Bool :=
-  o.readLen ≠ 0 && size > (min o.readLen o.maxReadLen : Nat)
+/-- `read_to_end = size is None or size < 0` -/
+def readToEnd : Option Int → Bool
+  | none => true
+  | some n => decide (n < 0)
+
+/-- does `read` take the `_SFTPFileReader` path?
+    (`self.read_len and (read_to_end or size > min(read_len, max_read_len))`; before the repair of the
+    short-read defect, `toEndReader = false`: `self.read_len and size > min(read_len, max_read_len)`) -/
+def readParallel (o : FObj) (toEnd : Bool) (size : Int) : Bool :=
+  o.readLen ≠ 0 && ((o.toEndReader && toEnd) || size > (min o.readLen o.maxReadLen : Nat))
 
 /-- does `write` take the `_SFTPFileWriter` path? (`self.write_len and datalen > self.write_len`) -/
 def writeParallel (o : FObj) (datalen : Nat) : Bool := o.writeLen ≠ 0 && datalen > o.writeLen
@@ -320,12 +377,13 @@ def fstep (w : FWorld) : FOp → FWorld × FRes
     match (match offset with | some o => some o | none => w.obj.offset) with
     | none => (w, .bytes [])
     | some off =>
+      let toEnd := readToEnd size
       let size := effSize size w.content.length off
       if off < 0 ∨ size < 0 then (w, .exc)
       else
         let data := slice w.content off.toNat size.toNat
         -- single request at/after EOF: SFTPEOFError is swallowed and `_offset` is left alone
-        if data = [] ∧ readParallel w.obj size = false then (w, .bytes [])
+        if data = [] ∧ readParallel w.obj toEnd size = false then (w, .bytes [])
         else ({ w with obj := { w.obj with offset := some (off + data.length) } }, .bytes data)
   | .write d offset =>
     let off : Int := match offset with
@@ -350,6 +408,21 @@ def fstep (w : FWorld) : FOp → FWorld × FRes
     match w.obj.offset with
     | none => ({ w with obj := { w.obj with offset := some w.content.length } }, .num w.content.length)
     | some o => (w, .num o)
+
+/-- `SFTPClientFile.read`'s single-request path: one `handler.read(offset, size)` whose reply is returned as
+    it is; `SFTPEOFError` is swallowed (empty result); batch ends mean nothing here. -/
+def singleRead (off size : Nat) (evs : List Ev) : Outcome :=
+  match evs.filter (fun e => match e with | .endBatch => false | _ => true) with
+  | [.complete r (.data d)] => if r = ⟨off, size⟩ then .ok d else .running
+  | [.complete r .eof] => if r = ⟨off, size⟩ then .ok [] else .running
+  | [.complete r .err] => if r = ⟨off, size⟩ then .raised else .running
+  | _ => .running
+
+/-- the transfer part of `SFTPClientFile.read(size, offset)`: path choice, then the reader or one request.
+    `size` is the effective size (`_end() - offset` when reading to the end: `toEnd`). -/
+def fread (strict : Bool) (o : FObj) (mr : Nat) (toEnd : Bool) (off size : Nat) (evs : List Ev) : Outcome :=
+  if readParallel o toEnd size then goutcome (rrunS strict o.readLen mr off size evs)
+  else singleRead off size evs
 
 def frun (w : FWorld) : List FOp → FWorld × List FRes
   | [] => (w, [])
